@@ -1,4 +1,49 @@
-import LdarModel.Driver.Proto
-/- driver stub: replaced by the component's real driver -/
-open LdarModel.Proto
-def main : IO Unit := runDriver (fun (_ : Unit) (_ : List String) => ((), "bad-op")) ()
+import LdarModel.Model.Tree
+import LdarModel.Driver.Json
+/-
+Driver for the parameter-tree model (exe drv_tree).  One request per line: `<op> <one JSON value>`.
+  defs   {file name: tree}            -> ok           (kept for the following `intake` lines)
+  merge  [default, user]              -> tree | reject:<kind>      retainUpdate
+  check  [[omit keys], default, test] -> ok   | reject:<kind>      checkTypes
+  strip  tree                         -> tree                      removePlaceholders
+  names  simulation parameters        -> ok   | reject:<kind>      validateNames
+  intake [file, file, ...]            -> tree | reject:<kind>      intake (with the stored defs)
+  get    [[path], tree]               -> tree | -                  get?
+Anything else (or a malformed payload) answers `bad-op`.
+-/
+open LdarModel.Tree LdarModel.Json
+
+def strList? : JL → Option (List String)
+  | .nil => some []
+  | .cons (.str s) t => (strList? t).map (s :: ·)
+  | .cons _ _ => none
+
+def kvList? : JL → Option (List KV)
+  | .nil => some []
+  | .cons (.obj k) t => (kvList? t).map (k :: ·)
+  | .cons _ _ => none
+
+def step (defs : KV) (op payload : String) : KV × String :=
+  match LdarModel.Json.parse payload with
+  | none => (defs, "bad-op")
+  | some j =>
+    match op, j with
+    | "defs", .obj d => (d, "ok")
+    | "merge", .list (.cons d (.cons u .nil)) => (defs, showRes (retainUpdate d u))
+    | "check", .list (.cons (.list om) (.cons d (.cons t .nil))) =>
+      match strList? om with
+      | some om => (defs, showUnit (checkTypes om d t))
+      | none => (defs, "bad-op")
+    | "strip", t => (defs, render (removePlaceholders t))
+    | "names", .obj sim => (defs, showUnit (validateNames sim))
+    | "intake", .list fs =>
+      match kvList? fs with
+      | some fs => (defs, showRes (intake defs fs))
+      | none => (defs, "bad-op")
+    | "get", .list (.cons (.list p) (.cons t .nil)) =>
+      match strList? p with
+      | some p => (defs, match get? p t with | some v => render v | none => "-")
+      | none => (defs, "bad-op")
+    | _, _ => (defs, "bad-op")
+
+def main : IO Unit := runJsonDriver step KV.nil
